@@ -127,6 +127,10 @@ func (k Keeper) ReturnSlashedTokens(ctx context.Context, amt math.Int, hashId []
 		// is called), so the token source is always the bonded pool: for a bonded validator the staking
 		// module then moves nothing, for a validator that is not bonded it moves the coins to the
 		// not-bonded pool, which is where that validator's tokens must be held
+		// a share that truncates to zero is not delegated: delegating zero tokens would leave a delegation with zero shares
+		if !shareAmt.TruncateInt().IsPositive() {
+			continue
+		}
 		_, err = k.stakingKeeper.Delegate(ctx, delAddr, shareAmt.TruncateInt(), stakingtypes.Bonded, val, false) // false means to not subtract tokens from an account
 		if err != nil {
 			return err
@@ -177,6 +181,10 @@ func (k Keeper) FeeRefund(ctx context.Context, hashId []byte, amt math.Int) erro
 		amtDec := math.LegacyNewDecFromInt(amt)
 		shareAmtDec := sourceAmountDec.Mul(amtDec).Quo(trackedFeesTotalDec)
 		shareAmt := shareAmtDec.TruncateInt()
+		// a share that truncates to zero is not delegated: delegating zero tokens would leave a delegation with zero shares
+		if !shareAmt.IsPositive() {
+			continue
+		}
 		_, err = k.stakingKeeper.Delegate(ctx, sdk.AccAddress(source.DelegatorAddress), shareAmt, stakingtypes.Bonded, val, false)
 		if err != nil {
 			return err
@@ -215,6 +223,10 @@ func (k Keeper) GetBondedValidators(ctx context.Context, max uint32) ([]stakingt
 // TODO: this should be in dispute module, no reason for it to be in reporter module
 // Stakes a given amount of tokens to a BONDED validator from a given address
 func (k Keeper) AddAmountToStake(ctx context.Context, acc sdk.AccAddress, amt math.Int) error {
+	// delegating zero tokens would leave a delegation with zero shares
+	if !amt.IsPositive() {
+		return nil
+	}
 	vals, err := k.GetBondedValidators(ctx, 1)
 	if err != nil {
 		return err
